@@ -37,6 +37,8 @@ type Env struct {
 	extraCands map[string][]Term
 	siteBlock  *ssa.BasicBlock
 	siteInstr  ssa.Instruction
+	argFrame   *frame // callarg(i): the frame and instruction of the call when it lies in an inlined helper
+	argInstr   ssa.Instruction
 }
 
 func (env *Env) with(st *State) *Env {
@@ -383,7 +385,56 @@ func (env *Env) ident(x *ast.Ident) (tv, error) {
 			return r, err
 		}
 	}
+	if x.Name == "rangeindex" && env.frame != nil && env.siteBlock != nil {
+		// the loop is not (no longer) a range loop: for `for i := 0; ...; i++` the hidden index of the equivalent
+		// range loop is i - 1 at the header (elements 0..i-1 have been processed) and in the body
+		for b := env.siteBlock; b != nil; b = b.Idom() {
+			for _, ins := range b.Instrs {
+				phi, ok := ins.(*ssa.Phi)
+				if !ok {
+					break
+				}
+				if isCountingPhi(phi) {
+					if v, have := env.frame.vals[phi]; have {
+						return tv{t: app(SInt, "-", v, intLit(1)), typ: phi.Type()}, nil
+					}
+				}
+			}
+		}
+	}
 	return tv{}, fmt.Errorf("unknown identifier %q", x.Name)
+}
+
+// isCountingPhi: an integer loop variable that starts at 0 and is incremented by 1 on every back edge.
+func isCountingPhi(phi *ssa.Phi) bool {
+	b, ok := phi.Type().Underlying().(*types.Basic)
+	if !ok || b.Info()&types.IsInteger == 0 || len(phi.Edges) < 2 {
+		return false
+	}
+	zero, incs := 0, 0
+	for _, e := range phi.Edges {
+		switch v := e.(type) {
+		case *ssa.Const:
+			if k, ok := constInt(v); ok && k == 0 {
+				zero++
+				continue
+			}
+			return false
+		case *ssa.BinOp:
+			if v.Op == token.ADD && v.X == phi {
+				if c, ok := v.Y.(*ssa.Const); ok {
+					if k, ok := constInt(c); ok && k == 1 {
+						incs++
+						continue
+					}
+				}
+			}
+			return false
+		default:
+			return false
+		}
+	}
+	return zero == 1 && incs >= 1
 }
 
 func (env *Env) qualified(pkgName, name string) (tv, bool, error) {
@@ -840,9 +891,13 @@ func (env *Env) call(x *ast.CallExpr) (tv, error) {
 		return tv{t: ex.get(env.st, markComp(env.frame.fn, id.Name), SBool)}, nil
 	case "callarg":
 		// callarg(i): the i-th argument (receiver not counted) of the call a site assertion is attached before
-		ci, ok := env.siteInstr.(ssa.CallInstruction)
+		argIns, argFr := env.siteInstr, env.frame
+		if env.argFrame != nil {
+			argIns, argFr = env.argInstr, env.argFrame
+		}
+		ci, ok := argIns.(ssa.CallInstruction)
 		lit, isLit := x.Args[0].(*ast.BasicLit)
-		if !ok || env.frame == nil || !isLit {
+		if !ok || argFr == nil || !isLit {
 			return tv{}, env.errf(x, "callarg(i) needs a literal index and a call site")
 		}
 		i, _ := strconv.Atoi(lit.Value)
@@ -853,7 +908,7 @@ func (env *Env) call(x *ast.CallExpr) (tv, error) {
 		if i < 0 || i >= len(c.Args) {
 			return tv{}, env.errf(x, "the call has no argument %s", lit.Value)
 		}
-		return tv{t: env.frame.val(c.Args[i]), typ: c.Args[i].Type()}, nil
+		return tv{t: argFr.val(c.Args[i]), typ: c.Args[i].Type()}, nil
 	case "old":
 		e2 := env.with(env.old)
 		e2.siteBlock = nil // parameter names denote their entry values inside old(...)
